@@ -154,11 +154,13 @@ def rule_qm(ctx):
     """'two non-empty values for one key in any letter case' are refused through Qualifiers::entry reporting Occupied: that
     is only as good as the map's lookup, i.e. its representation invariant and comparator (C11)."""
     from . import C11
-    C11.invariant_obligations(ctx, ctx.facts(), rule="QM-INV")
+    from .common import ScopedCtx, parser_scope
+    # only the part of the invariant the parser can reach (entry / insert / lookups / retain), not e.g. remove
+    C11.invariant_obligations(ScopedCtx(ctx, parser_scope(ctx.facts())), ctx.facts(), rule="QM-INV")
 
 
 RULES = [
-    ("QM-INV", rule_qm, 40),
+    ("QM-INV", rule_qm, 25),
     ("CONTROL", rule_controls, 0),
     ("REJECT-SOUND", rule_reject_sound, 30),
     ("TYPED", rule_typed, 2),
